@@ -169,6 +169,7 @@ def run(ctx):
 
     # T6 minus split: Sub on the true edge, Neg on the false edge of last_token_is_rightsided_value
     t6(ctx, prog, f_tree, t2o)
+    t7(ctx, prog, T)
 
 
 def t6(ctx, prog, f, t2o):
@@ -222,3 +223,234 @@ def t6(ctx, prog, f, t2o):
         else:
             kinds.add('other')
     ctx.check(kinds == {'const-false', 'is_rightsided_value'}, 'T6', 'flag-definitions', 'flag-defs', 'the flag `%s` is defined only as `false` and `token.is_rightsided_value()` (found %s)' % (name, sorted(kinds)), span=f.span)
+
+
+# ----------------------------------------------------------------------------- T7: the insertion decision procedure
+
+def t7(ctx, prog, T):
+    """insert_back_prioritized decides between error / descend into the last child / rotate / plain push from the operator
+    tables only.  All its paths are enumerated with symbolic operators (self S, last child L, inserted node N); the resulting
+    decision function is evaluated for every combination of operator-kind classes and compared with the reference decision of
+    precedence climbing derived from the documented rules:
+      enter(S,N)   = prec S < prec N  or  N prefix-like  or  S is the insertion root  or  (prec S = prec N and both right-to-left)
+      descend(L,N) = prec L < prec N  or  N prefix-like  or  (prec L = prec N and both right-to-left)
+      not enter -> error; S leaf -> error; S complete: descend -> recurse into L, else N leaf/group -> error, else rotate
+      (N adopts L as its left operand); S incomplete: N binary -> error, else push.
+    Together with T1-T3 (the tables) this fixes every single insertion step; the induction over the token sequence is not mechanised."""
+    from absint import Interp, ADT, SYM, C, fmt, is_adt, Budget
+    from rules.treepaths import opaque_hook
+    f = prog.fn('tree::Node::<NumericTypes>::insert_back_prioritized')
+    if f is None:
+        ctx.unrecognised('T7', 'insert_back_prioritized', 'missing', 'not found')
+        return
+    node_adt = prog.adt('tree::Node')
+    S = ADT(node_adt['path'], 0, 'Node', [SYM('S'), SYM('SC')])
+    N = ADT(node_adt['path'], 0, 'Node', [SYM('N'), SYM('NC')])
+    try:
+        paths = Interp(prog, hook=opaque_hook(opaque={'insert_back_prioritized', 'has_enough_children', 'has_too_many_children'}), max_steps=600000).paths(f, [S, N, SYM('R')])
+    except Budget:
+        ctx.unrecognised('T7', 'insert_back_prioritized', 'budget', 'too complex for path enumeration', span=f.span)
+        return
+
+    def who(term):
+        """which operator a term talks about: 'S', 'N' or 'L' (the last child of self)"""
+        s = fmt(term)
+        if term == SYM('S'):
+            return 'S'
+        if term == SYM('N'):
+            return 'N'
+        if '$SC' in s and ('last' in s or 'slice' in s or 'pop' in s):
+            return 'L'
+        return None
+
+    class Unknown(Exception):
+        pass
+
+    def ev(term, a):
+        k = term[0]
+        if k == 'c':
+            return term[1]
+        if k == 'sym':
+            if term[1] == 'R':
+                return a['R']
+            raise Unknown(fmt(term))
+        if k == 'adt':
+            if term[3] in ('Some', 'None') and 'Option' in term[1]:
+                return ('opt', term[3], tuple(ev(x, a) for x in term[4]))
+            if 'Operator' in term[1]:
+                return ('op', term[3])
+            raise Unknown(fmt(term))
+        if k == 'app':
+            name = term[1]
+            args = term[2]
+            if name.startswith('binop:'):
+                x, y = ev(args[0], a), ev(args[1], a)
+                op = name.split(':')[1]
+                return {'Lt': x < y, 'Le': x <= y, 'Gt': x > y, 'Ge': x >= y, 'Eq': x == y, 'Ne': x != y}[op]
+            if name.startswith('unop:Not'):
+                return not ev(args[0], a)
+            base = name.split('::')[-1].split('#')[0]
+            if base in ('precedence', 'is_unary', 'is_left_to_right', 'is_leaf', 'is_sequence', 'max_argument_amount'):
+                w = who(args[0])
+                if w is None:
+                    raise Unknown(fmt(term))
+                v = T[base][a[w]]
+                return ('opt', 'Some', (v,)) if base == 'max_argument_amount' and v is not None else (('opt', 'None', ()) if base == 'max_argument_amount' else v)
+            if base == 'has_enough_children':
+                return a['enough']
+            if base == 'is_empty':
+                s = fmt(args[0])
+                if '$SC' in s:
+                    return a['sc_empty']
+                if '$NC' in s:
+                    return a['nc_empty']
+                raise Unknown(fmt(term))
+            if base in ('eq', 'ne') and len(args) == 2:
+                vals = []
+                for x in args:
+                    w = who(x)
+                    vals.append(('op', a[w]) if w else ev(x, a))
+                r = vals[0] == vals[1]
+                return r if base == 'eq' else not r
+            raise Unknown(fmt(term))
+        raise Unknown(fmt(term))
+
+    def comp(term):
+        """compile a term into a function of the assignment (atoms resolved once)"""
+        k = term[0]
+        if k == 'c':
+            v = term[1]
+            return lambda a: v
+        if k == 'sym':
+            if term[1] == 'R':
+                return lambda a: a['R']
+            raise Unknown(fmt(term))
+        if k == 'adt':
+            if term[3] in ('Some', 'None') and 'Option' in term[1]:
+                subs = [comp(x) for x in term[4]]
+                nm = term[3]
+                return lambda a: ('opt', nm, tuple(f_(a) for f_ in subs))
+            if 'Operator' in term[1]:
+                v = ('op', term[3])
+                return lambda a: v
+            raise Unknown(fmt(term))
+        if k == 'app':
+            name, args = term[1], term[2]
+            if name.startswith('binop:'):
+                x, y = comp(args[0]), comp(args[1])
+                op = name.split(':')[1]
+                import operator as _o
+                fn_ = {'Lt': _o.lt, 'Le': _o.le, 'Gt': _o.gt, 'Ge': _o.ge, 'Eq': _o.eq, 'Ne': _o.ne}[op]
+                return lambda a: fn_(x(a), y(a))
+            if name.startswith('unop:Not'):
+                x = comp(args[0])
+                return lambda a: not x(a)
+            base = name.split('::')[-1].split('#')[0]
+            if base in ('precedence', 'is_unary', 'is_left_to_right', 'is_leaf', 'is_sequence', 'max_argument_amount'):
+                w = who(args[0])
+                if w is None:
+                    raise Unknown(fmt(term))
+                tab = T[base]
+                if base == 'max_argument_amount':
+                    return lambda a: (('opt', 'Some', (tab[a[w]],)) if tab[a[w]] is not None else ('opt', 'None', ()))
+                return lambda a: tab[a[w]]
+            if base == 'has_enough_children':
+                return lambda a: a['enough']
+            if base == 'is_empty':
+                s_ = fmt(args[0])
+                if '$SC' in s_:
+                    return lambda a: a['sc_empty']
+                if '$NC' in s_:
+                    return lambda a: a['nc_empty']
+                raise Unknown(fmt(term))
+            if base in ('eq', 'ne') and len(args) == 2:
+                subs = []
+                for x in args:
+                    w = who(x)
+                    subs.append((lambda a, w=w: ('op', a[w])) if w else comp(x))
+                if base == 'eq':
+                    return lambda a: subs[0](a) == subs[1](a)
+                return lambda a: subs[0](a) != subs[1](a)
+            raise Unknown(fmt(term))
+        raise Unknown(fmt(term))
+
+    compiled = []
+    try:
+        for ret, eff in paths:
+            conds = [(comp(e[2][0]), e[2][1] != C(0)) for e in eff if e[0] == '<branch>']
+            calls = [e[0].split('::')[-1] for e in eff if not e[0].startswith('<')]
+            if is_adt(ret, 'result::Result', 'Err'):
+                out = 'error'
+            elif ret[0] == 'app' and 'insert_back_prioritized' in ret[1]:
+                out = 'descend'
+            elif is_adt(ret, 'result::Result', 'Ok'):
+                out = 'rotate' if 'pop' in calls else 'push'
+            else:
+                out = '?'
+            compiled.append((conds, out))
+    except Unknown as e:
+        ctx.unrecognised('T7', 'insert_back_prioritized', 'condition', 'a branch condition of the insertion procedure is not a function of the operator tables: %s' % e, span=f.span)
+        return
+    ctx.counters['insert_decision_paths'] = len(compiled)
+
+    def decide(a):
+        hits = set()
+        for conds, out in compiled:
+            for fn_, want_true in conds:
+                if bool(fn_(a)) != want_true:
+                    break
+            else:
+                hits.add(out)
+        return hits
+
+    prec, unary, l2r, leaf, arity = T['precedence'], T['is_unary'], T['is_left_to_right'], T['is_leaf'], T['max_argument_amount']
+
+    def ref(a):
+        s, l, n = a['S'], a['L'], a['N']
+        enter = prec[s] < prec[n] or unary[n] or a['R'] or (prec[s] == prec[n] and not l2r[s] and not l2r[n])
+        if not enter or leaf[s]:
+            return 'error'
+        if a['enough']:
+            if prec[l] < prec[n] or unary[n] or (prec[l] == prec[n] and not l2r[l] and not l2r[n]):
+                return 'descend'
+            if leaf[n] or n == 'RootNode':
+                return 'error'
+            if s == 'RootNode' and not a['sc_empty']:
+                return 'error'
+            return 'rotate'
+        if arity[n] == 2:
+            return 'error'
+        return 'push'
+    # kind classes: operators that agree on every table behave identically
+    cls = {}
+    for k in prec:
+        key = (prec[k], unary[k], l2r[k], leaf[k], k == 'RootNode', arity[k])
+        cls.setdefault(key, k)
+    reps = sorted(cls.values())
+    n = 0
+    bad = 0
+    try:
+        for s in reps:
+            for l in reps:
+                for nn in reps:
+                    for R in (False, True):
+                        for enough in (False, True):
+                            for sc_empty in (False, True):
+                                a = dict(S=s, L=l, N=nn, R=R, enough=enough, sc_empty=sc_empty, nc_empty=True)
+                                n += 1
+                                got = decide(a)
+                                want = ref(a)
+                                if got != {want}:
+                                    bad += 1
+                                    if bad <= 5:
+                                        ctx.violation('T7', 'decision[S=%s,L=%s,N=%s,root=%s,complete=%s]' % (s, l, nn, R, enough), 'decision',
+                                                      'inserting a %s node below a %s node whose last child is %s: the code decides %s, precedence climbing by the documented table requires %s' % (nn, s, l, sorted(got), want), span=f.span)
+    except Unknown as e:
+        ctx.unrecognised('T7', 'insert_back_prioritized', 'condition', 'a branch condition of the insertion procedure is not a function of the operator tables: %s' % e, span=f.span)
+        return
+    if bad == 0:
+        ctx.ok('T7', 'insertion-decision', 'the decision (error / descend / rotate / push) equals the reference for all %d combinations of %d operator-kind classes, root flag and completeness' % (n, len(reps)), span=f.span)
+    elif bad > 5:
+        ctx.violation('T7', 'decision[more]', 'decision-more', '%d further combinations disagree with the reference decision' % (bad - 5), span=f.span)
+    ctx.counters['insert_decision_combinations'] = n
+    ctx.floor('T7', 'kind_classes', len(reps), 10)
